@@ -29,6 +29,17 @@ prefix on which memory, file and re-opened group agreed with the model step by s
 `operation-raises:<op>:<class>`.  The group a fresh process gets must itself be writable again
 (`reopened-group-unusable` otherwise).
 
+Status requests that fail: an answer of the status script may be a fault (`http:<code>` = the request is answered
+with that HTTP status, `conn` = connection error).  `RemoteJob._handle_status_error` swallows a recoverable fault
+(previous status kept) and re-raises an unrecoverable one or the 5th in a row: the operation then *raises*, and
+the property is evaluated after it like after any other operation (memory vs file vs re-opened group).  Which of
+the two happened is read off the real run (the last server call of an operation that raised HTTPError /
+ConnectionError) and given to the model as `fault:<class>` / `ignored`; the model's theorems hold for every such
+pattern.  Handlers: several jobs of one group (and the bystander group) may share platform name and URL and
+differ only in token or proxies; every request that reaches the scripted server is logged with the credentials
+it was made with and compared with the metadata the file holds for that job.  A killed process executes nothing
+after the call it died in: the group file is put back to its content at that instant before re-opening.
+
 Torn writes inside one `PersistentData.write_file` call (crash points within a single file write)
 are out of scope: OS behaviour, not modelled.
 """
@@ -74,7 +85,20 @@ SIGNATURES = {
     "dir": "subdir-never-created",
     "add": "add-raises-after-append",
     "stat": "stale-status-after-rerun",
+    "poll": "status-unsaved-when-wait-raises",
 }
+
+# answers of a status script that are not a status: the request itself fails
+FATAL_FAULTS = ["http:404", "http:500", "http:401", "http:403", "http:400", "http:503"]   # re-raised at once
+SOFT_FAULTS = ["http:408", "http:409", "http:421", "http:423", "http:429", "conn"]         # swallowed, 5th in a row raises
+
+
+def is_fault(a):
+    return a == "conn" or str(a).startswith("http:")
+
+
+def fault_class(a):
+    return "ConnectionError" if a == "conn" else "HTTPError"
 
 
 def repo_root():
@@ -114,10 +138,19 @@ class Server:
         self.skipped = []     # ids below `next` never given to this group (usable for outside jobs)
         self.forced = None    # id to give to a job executed outside the group
         self.calls = 0
+        self.log = []         # [(kind, job id or None, handler metadata)] requests of the running operation
+        self.last = None      # ("issue", outcome) | ("status", answer): last call of the running operation
+        self.before_kill = None   # callback run at the instant the process dies
 
     def script(self, outs, sts):
         self.outs, self.sts = list(outs), list(sts)
         self.created, self.accepted = [], []
+        self.log, self.last = [], None
+
+    def _kill(self):
+        if self.before_kill is not None:
+            self.before_kill()
+        raise Kill()
 
     def _issue(self):
         self.calls += 1
@@ -126,8 +159,9 @@ class Server:
             k, self.forced = self.forced, None
             return k
         if not self.outs:
-            raise Kill()
+            self._kill()
         o = self.outs.pop(0)
+        self.last = ("issue", o)
         if o == "refuse":
             return None
         g = int(o["accept"])
@@ -140,8 +174,10 @@ class Server:
     def status(self):
         self.calls += 1
         if not self.sts:
-            raise Kill()
-        return self.sts.pop(0)
+            self._kill()
+        a = self.sts.pop(0)
+        self.last = ("status", a)
+        return a
 
 
 def idstr(k):
@@ -156,51 +192,79 @@ HANDLERS = [
     ("sim:alpha", "https://alpha.test", "tokA", None),
     ("qpu:beta", "https://beta.test", "tokB", {"https": "http://proxy.test:3128"}),
     ("sim:gamma", "https://gamma.test/api", "tokC", None),
+    # same platform name and URL as an entry above, other credentials / route (a renewed token, a second account,
+    # a changed proxy configuration): distinct platform metadata all the same
+    ("sim:alpha", "https://alpha.test", "tokA-renewed", None),
+    ("qpu:beta", "https://beta.test", "tokB", {"https": "http://other-proxy.test:8080"}),
+    # the bystander group's handler: platform and URL of entry 0, a third token
+    ("sim:alpha", "https://alpha.test", "tokT", None),
 ]
+N_GROUP_HANDLERS = 5       # the histories' own jobs draw from the first five
+TWIN_HD = 5
+SAME_PLATFORM = {0: 3, 3: 0, 1: 4, 4: 1}     # handler index -> the other index with the same (platform, url)
+
+_CURRENT = {"server": None}    # the scripted server of the history being run
 
 
-def make_handler_class(server: Server):
-    from requests.exceptions import HTTPError
+class FakeHandler:
+    """Stands for `RPCHandler` (same constructor, same attributes read by RemoteJob._to_dict).  One class for the
+    whole run, talking to the server of the history being run: a handler object the code keeps and uses again later
+    behaves like a freshly built one with the same four constructor arguments, as a real RPCHandler would."""
 
-    class FakeHandler:
-        def __init__(self, name, url, token, proxies=None):
-            self.name, self.url, self.token, self.proxies = name, url, token, proxies
-            self.headers = {"Authorization": f"Bearer {token}"}
-            self.request_timeout = 10
-            self.platform_commands = ["probs"]
+    def __init__(self, name, url, token, proxies=None):
+        self.name, self.url, self.token, self.proxies = name, url, token, proxies
+        self.headers = {"Authorization": f"Bearer {token}"}
+        self.request_timeout = 10
+        self.platform_commands = ["probs"]
 
-        def create_job(self, payload):
-            k = server._issue()
-            if k is None:
-                raise HTTPError("refused by the scripted server")
-            if not server.outside:
-                rec = json.loads(json.dumps(payload))
-                server.created.append((k, rec))
-                server.all_created.append((k, rec))
-            return idstr(k)
+    def _meta(self):
+        return {"headers": dict(self.headers), "platform": self.name, "url": self.url,
+                "proxies": copy.deepcopy(self.proxies)}
 
-        def rerun_job(self, job_id):
-            k = server._issue()
-            if k is None:
-                raise HTTPError("refused by the scripted server")
-            return idstr(k)
+    def create_job(self, payload):
+        from requests.exceptions import HTTPError
+        server = _CURRENT["server"]
+        k = server._issue()
+        if k is None:
+            raise HTTPError("refused by the scripted server")
+        if not server.outside:
+            rec = json.loads(json.dumps(payload))
+            server.created.append((k, rec, self._meta()))
+            server.all_created.append((k, rec))
+        return idstr(k)
 
-        def get_job_status(self, job_id):
-            st = server.status()
-            return {"status": server_word(st), "progress": 0.5, "progress_message": "phase",
-                    "status_message": "stopped", "creation_datetime": None, "start_time": None, "duration": None}
+    def rerun_job(self, job_id):
+        from requests.exceptions import HTTPError
+        server = _CURRENT["server"]
+        server.log.append(("rerun", job_id, self._meta()))
+        k = server._issue()
+        if k is None:
+            raise HTTPError("refused by the scripted server")
+        return idstr(k)
 
-        def cancel_job(self, job_id):
-            raise AssertionError("cancel_job is not part of C19 histories")
+    def get_job_status(self, job_id):
+        import requests
+        server = _CURRENT["server"]
+        server.log.append(("status", job_id, self._meta()))
+        st = server.status()
+        if st == "conn":
+            raise requests.exceptions.ConnectionError("scripted connection error")
+        if is_fault(st):
+            resp = requests.models.Response()
+            resp.status_code = int(st.split(":")[1])
+            raise requests.exceptions.HTTPError(f"{resp.status_code} scripted status error", response=resp)
+        return {"status": server_word(st), "progress": 0.5, "progress_message": "phase",
+                "status_message": "stopped", "creation_datetime": None, "start_time": None, "duration": None}
 
-        def get_job_results(self, job_id):
-            raise AssertionError("get_job_results is not part of C19 histories")
+    def cancel_job(self, job_id):
+        raise AssertionError("cancel_job is not part of C19 histories")
 
-        def fetch_platform_details(self):
-            return {"specs": {"available_commands": list(self.platform_commands)}, "type": "simulator",
-                    "name": self.name, "status": "available", "perfs": {}}
+    def get_job_results(self, job_id):
+        raise AssertionError("get_job_results is not part of C19 histories")
 
-    return FakeHandler
+    def fetch_platform_details(self):
+        return {"specs": {"available_commands": list(self.platform_commands)}, "type": "simulator",
+                "name": self.name, "status": "available", "perfs": {}}
 
 
 class _NoTqdm:
@@ -227,7 +291,10 @@ class Env:
         self.JobGroup, self.RemoteJob, self.jgmod = JobGroup, RemoteJob, jgmod
         self.dir = tempfile.mkdtemp(prefix="h-", dir=root)
         self.server = Server()
-        self.Handler = make_handler_class(self.server)
+        _CURRENT["server"] = self.server
+        self.server.before_kill = self.remember_file
+        self.kill_image = None
+        self.Handler = FakeHandler
         with warnings.catch_warnings():
             warnings.simplefilter("ignore")
             JobGroup._PERSISTENT_DATA = PersistentData(self.dir)
@@ -242,6 +309,28 @@ class Env:
         self.tables = {"hd": {}, "name": {"unnamed": 0}, "rest": {}, "rm": {}}
         self.group = group
         self.file = self.file_of(group)
+
+    def remember_file(self):
+        """the process dies now: this is the file it leaves"""
+        try:
+            with open(self.file, "rb") as f:
+                self.kill_image = ("bytes", f.read())
+        except FileNotFoundError:
+            self.kill_image = ("absent", None)
+
+    def restore_file(self):
+        """nothing runs after the call a process died in: whatever an exception handler or `finally` clause of the
+        code under test wrote while the harness's stand-in for the kill was unwinding is undone"""
+        if self.kill_image is None:
+            return
+        kind, data = self.kill_image
+        self.kill_image = None
+        if kind == "absent":
+            if os.path.exists(self.file):
+                os.remove(self.file)
+        else:
+            with open(self.file, "wb") as f:
+                f.write(data)
 
     def file_of(self, name):
         """where the property's anchor (`JobGroup._file_path`) puts the group called `name`"""
@@ -423,7 +512,8 @@ class Runner:
     def make_twin(self):
         env = self.env
         g = env.JobGroup(self.twin)
-        g.add(env.build_job(dict(PLAIN, hd=1, name=4, rest=3)))
+        g.add(env.build_job(dict(PLAIN, hd=TWIN_HD, name=4, rest=3)))
+        env.JobGroup(self.twin)       # and it is opened once more by this process, as a user listing groups would
         self.twin_file = env.read_file(self.twin)
         if self.twin_file is None or len(self.twin_file) != 1:
             self.oracle.append((-1, "group-file-missing", f"a group named {self.twin!r} was created and given one job; "
@@ -438,6 +528,14 @@ class Runner:
                                 f"operations on the group named {self.name!r} changed the file of the group named "
                                 f"{self.twin!r} (created {self.twin_pos} it, one unsent job): {self.twin_file} -> {now}"))
             self.twin_file = now
+        if now is not None:
+            # the bystander re-opened by the same process is the group its own file describes
+            got = [m["hd"] for m in self.env.mem_view(self.env.JobGroup(self.twin))]
+            if got != [e["hd"] for e in now]:
+                self.oracle.append((t, "other-group-reopened-differs:hd",
+                                    f"the group named {self.twin!r} (file metadata tokens {[e['hd'] for e in now]}) re-opened "
+                                    f"after operations on the group named {self.name!r} has jobs with the platform metadata "
+                                    f"{got} (token table: {self.env.tables['hd']})"))
 
     def crashed(self, t, e, doing):
         """An exception escaped while the harness was observing/driving the real code.  Through the code under
@@ -522,6 +620,7 @@ class Runner:
                 raise RuntimeError(f"unknown op {kind}")
         except Kill:
             res = "killed"
+            env.restore_file()
             try:
                 jg = JobGroup(env.group)      # the process is gone: only the file survives
             except Exception:             # noqa: BLE001 — reported by snapshot() below
@@ -529,9 +628,25 @@ class Runner:
         except Exception as e:        # noqa: BLE001 — every exception class is an observation
             res = exc_name(e)
         self.jg = jg
+        faults = {"raiser": None, "ignored": 0, "wait": False}
+        if "sts" in lop:
+            # which failed status requests were swallowed and which one ended the operation, read off the real run
+            given = list(op["sts"])
+            used = len(given) - len(srv.sts)
+            raiser = None
+            if res in ("raised:HTTPError", "raised:ConnectionError") and srv.last is not None \
+                    and srv.last[0] == "status" and is_fault(srv.last[1]) and used > 0:
+                raiser = used - 1
+                faults["raiser"] = given[raiser]
+                # raised by a request of `_update_job_statuses` (refresh) or of the sequential wait on a job just sent
+                faults["wait"] = bool(kind == "launch" and op["seq"] and srv.accepted)
+            faults["ignored"] = sum(1 for i, a in enumerate(given[:used]) if is_fault(a) and i != raiser)
+            lop["sts"] = [a if not is_fault(a) else
+                          ("fault:" + fault_class(a)) if (i == raiser or (i >= used and a in FATAL_FAULTS)) else "ignored"
+                          for i, a in enumerate(given)]
         self.lean_ops.append(lop)
-        snap = snapshot(env, jg, oracle, t, op, res)
-        snap["res"], snap["view"] = res, view
+        snap = snapshot(env, jg, oracle, t, op, res, faults)
+        snap["res"], snap["view"], snap["faults"] = res, view, faults
         if snap["reload"] is None:
             self.dead = True
         prev_file = self.prev_file
@@ -545,15 +660,29 @@ class Runner:
             if lost:
                 oracle.append((t, "accepted-id-lost", f"ids {lost} were issued by the server during this launch "
                                                        f"({res}) but are not in the file"))
-            for k, payload in srv.created:
+            for k, payload, meta in srv.created:
                 idx = on_disk.index(k) if k in on_disk else None
                 sent = env.canon_req(payload)
+                held = prev_file[idx]["hd"] if (prev_file is not None and idx is not None and idx < len(prev_file)) else None
+                if held is not None and env.canon_meta(meta) != held:
+                    oracle.append((t, "request-sent-with-other-credentials",
+                                   f"the job-creation request of entry {idx} left with the platform metadata {meta}, while the "
+                                   f"file held for that entry the metadata token {held} of {env.tables['hd']}"))
                 stored = prev_file[idx]["body"] if (prev_file is not None and idx is not None and idx < len(prev_file)) else None
                 if stored is not None and sent != stored:
                     what = diff_req(stored, sent)
                     sig = SIGNATURES["ctx"] if what == ["job_context"] else "request-differs-from-stored-body"
                     oracle.append((t, sig, f"the request sent for entry {idx} differs from the body the file held "
                                            f"before the launch in {what}: stored {stored['payload']} sent {sent['payload']}"))
+        # every other request about a job of the group goes out with that job's stored platform metadata
+        for what_, job_id, meta in srv.log:
+            k = idnum(job_id)
+            held = next((e["hd"] for f_ in (prev_file, snap["disk"]) if f_ is not None for e in f_ if e["id"] == k), None)
+            if held is not None and env.canon_meta(meta) != held:
+                oracle.append((t, "request-sent-with-other-credentials",
+                               f"the {what_} request for job {job_id} left with the platform metadata {meta}, while the file "
+                               f"holds for that job the metadata token {held} of {env.tables['hd']}"))
+                break
         if kind == "add" and op["job"].get("dup") and res != "raised:ValueError":
             oracle.append((t, "duplicate-id-accepted", f"adding a job whose id is already in the group gave {res}"))
         self.steps.append(snap)
@@ -570,7 +699,7 @@ class Runner:
         if self.twin is not None:
             hist["twin"], hist["twin_pos"] = self.twin, self.twin_pos
         return hist, {"init": self.init, "steps": self.steps, "lean_ops": self.lean_ops, "created": created,
-                      "oracle": self.oracle}
+                      "oracle": self.oracle, "hd_table": dict(env.tables["hd"])}
 
 
 def run_real(root, hist):
@@ -591,7 +720,7 @@ def diff_req(a, b):
     return out
 
 
-def snapshot(env, jg, oracle, t, op, res):
+def snapshot(env, jg, oracle, t, op, res, faults=None):
     """memory, file, re-opened group + the property evaluated directly on them"""
     mem = env.mem_view(jg)
     try:
@@ -653,6 +782,8 @@ def snapshot(env, jg, oracle, t, op, res):
                 fields += ["body." + f for f in (diff_req(a["body"], b["body"]) if a["body"] and b["body"] else ["presence"])]
             if fields == ["body.job_context"]:
                 sig = SIGNATURES["ctx"]
+            elif fields == ["status"] and faults is not None and faults["raiser"] is not None and faults["wait"]:
+                sig = SIGNATURES["poll"]     # a status seen during the sequential wait, left unsaved when the wait raises
             elif fields in (["status"], ["status", "body.presence"]) and op is not None \
                     and op.get("op") == "launch" and op.get("rerun"):
                 sig = SIGNATURES["stat"]     # a status left unsaved by a rerun launch
@@ -747,7 +878,7 @@ def compare(real, rep, variant):
     return None
 
 
-FIXED = {"ctx": True, "dir": True, "add": True, "stat": True}
+FIXED = {"ctx": True, "dir": True, "add": True, "stat": True, "poll": True}
 
 
 def lean_request(hist, real, variant):
@@ -771,6 +902,10 @@ WITNESS = {
         {"op": "add", "job": PLAIN, "kw": None},
         {"op": "launch", "rerun": False, "replace": False, "seq": False, "outs": [{"accept": 0}], "sts": []},
         {"op": "launch", "rerun": True, "replace": True, "seq": False, "outs": [], "sts": ["WAITING", "SUCCESS"]}]},
+    "poll": {"dir": True, "ops": [
+        {"op": "add", "job": PLAIN, "kw": None},
+        {"op": "launch", "rerun": False, "replace": False, "seq": True, "outs": [{"accept": 0}],
+         "sts": ["RUNNING", "http:500"]}]},
 }
 WITNESS_WHAT = {
     "ctx": "breaks 'the request finally sent for any job is the same whether or not the group was re-opened in "
@@ -790,6 +925,12 @@ WITNESS_WHAT = {
     "stat": "breaks 'after every operation that returns (re-running jobs), re-opening yields the same last known status "
             "for every job that was sent': rerun_failed_*: job.is_failed refreshes the status of a still active job "
             "inside the loop without writing it: memory says SUCCESS, the file (and a re-opened group) still WAITING",
+    "poll": "breaks 'after every job-group operation that returns or raises (launching jobs sequentially), re-opening the "
+            "group yields the same last known status for every job that was sent': run_sequential / "
+            "rerun_failed_sequential wait for the job just sent with `while not job.status.completed` and write the group "
+            "only once it is complete; when a status request inside the wait raises (unrecoverable HTTP status such as "
+            "500/404/401, or the 5th recoverable fault in a row) the operation raises with the statuses seen so far in "
+            "memory only: memory says RUNNING, the file (and a re-opened group) still WAITING",
 }
 
 
@@ -920,7 +1061,10 @@ JOB_KINDS = ["plain", "plain", "ctx", "ctx", "cmd", "cmd-low", "placeholder", "p
 
 
 def gen_job(rng, chk, kind, state):
-    hd = rng.randrange(len(HANDLERS))
+    hd = rng.randrange(N_GROUP_HANDLERS)
+    if state.hds and rng.random() < 0.3:
+        # same platform name and URL as a job already in the group, other token / other proxies
+        hd = SAME_PLATFORM.get(rng.choice(state.hds), hd)
     name = rng.randint(1, 4)
     rest = rng.randint(1, 3)
     spec = {"hd": hd, "name": name, "rest": rest}
@@ -1013,8 +1157,26 @@ def group_state(runner):
 
 
 class GenState:
-    def __init__(self, ids, skipped):
-        self.ids, self.skipped = ids, skipped
+    def __init__(self, ids, skipped, hds=()):
+        self.ids, self.skipped, self.hds = ids, skipped, list(hds)
+
+
+def add_faults(rng, chk, sts, p=0.25):
+    """some status requests of this operation fail: an unrecoverable HTTP status, one or two recoverable faults, or
+    five recoverable faults in a row, inserted at a uniformly chosen position of the script"""
+    while rng.random() < p:
+        pos = rng.randint(0, len(sts))
+        r = rng.random()
+        if r < 0.5:
+            ins, what = [rng.choice(FATAL_FAULTS)], "unrecoverable"
+        elif r < 0.88:
+            ins, what = [rng.choice(SOFT_FAULTS) for _ in range(rng.randint(1, 2))], "recoverable"
+        else:
+            ins, what = [rng.choice(SOFT_FAULTS) for _ in range(5)], "five-recoverable-in-a-row"
+        chk.count("status_fault_scripted", what)
+        sts = sts[:pos] + ins + sts[pos:]
+        p = 0.3
+    return sts
 
 
 def polls(rng, n):
@@ -1069,7 +1231,9 @@ def gen_history(rng, chk, max_ops, root):
         n, unsent, active, failed, ids = group_state(runner)
         r = rng.random()
         if n == 0 or r < 0.30:
-            st = GenState(ids, runner.env.server.skipped)
+            hds = [i for j in runner.jg.remote_jobs for i, h in enumerate(runner.env.handlers[:N_GROUP_HANDLERS])
+                   if h._meta() == runner.env.Handler._meta(j._rpc_handler)]
+            st = GenState(ids, runner.env.server.skipped, hds)
             op = gen_job(rng, chk, rng.choice(JOB_KINDS), st)
         elif r < 0.32:
             op = {"op": "add_local"}
@@ -1084,6 +1248,7 @@ def gen_history(rng, chk, max_ops, root):
                 if rng.random() < 0.15:
                     sts = sts[:rng.randint(0, max(0, len(sts) - 1))]
                     chk.count("kill_in", "sequential-polling")
+                sts = add_faults(rng, chk, sts)
             op = {"op": "launch", "rerun": False, "replace": False, "seq": seq, "outs": outs, "sts": sts}
         elif r < 0.82:
             seq = rng.random() < 0.35
@@ -1095,16 +1260,17 @@ def gen_history(rng, chk, max_ops, root):
             if rng.random() < 0.12 and active > 0:
                 sts = sts[:rng.randint(0, active - 1)]
                 chk.count("kill_in", "rerun-status")
+            sts = add_faults(rng, chk, sts)
             op = {"op": "launch", "rerun": True, "replace": rng.random() < 0.5, "seq": seq, "outs": outs, "sts": sts}
         elif r < 0.92:
             sts = [rand_status(rng) for _ in range(active + 1)]
             if rng.random() < 0.1 and active > 0:
                 sts = sts[:rng.randint(0, active - 1)]
                 chk.count("kill_in", "progress")
-            op = {"op": "progress", "sts": sts}
+            op = {"op": "progress", "sts": add_faults(rng, chk, sts, 0.3 if active else 0.0)}
         else:
             op = {"op": "list", "kind": rng.choice(["successful", "active", "unsuccessful", "unsent"]),
-                  "sts": [rand_status(rng) for _ in range(active + 1)]}
+                  "sts": add_faults(rng, chk, [rand_status(rng) for _ in range(active + 1)], 0.3 if active else 0.0)}
         runner.step(op)
     return runner.finish()
 
@@ -1113,7 +1279,7 @@ def exhaustive_histories(nmax, chk):
     """groups of <= nmax jobs x all accept/refuse vectors x parallel|sequential x re-open at every point,
     then statuses, a second launch, a rerun (replace or append) with all accept/refuse vectors"""
     kinds = [{"hd": 0, "name": 1, "rest": 1},
-             {"hd": 1, "name": 2, "rest": 2, "ctx": 1},
+             {"hd": 3, "name": 2, "rest": 2, "ctx": 1},          # platform and URL of the first, a renewed token
              {"hd": 2, "name": 3, "rest": 1, "cmd": 10000, "max_shots": 100, "ctx": 2}]
     k = -1
     for n in range(1, nmax + 1):
@@ -1149,6 +1315,45 @@ def exhaustive_histories(nmax, chk):
                                 yield h
 
 
+def exhaustive_fault_histories(nmax):
+    """status requests that fail, exhaustively on small groups (jobs of one platform with two tokens and two proxies):
+    (A) all jobs sent in parallel, then a refresh whose answers range over {status change, no change, unrecoverable
+    fault, recoverable fault}^n, then a second refresh; (B) a sequential launch where the wait on each job ranges over
+    {completes at once, changes then completes, changes then unrecoverable fault, recoverable fault then changes then
+    fails, unrecoverable fault at once, five recoverable faults}; each with one re-open at every boundary (or none)"""
+    kinds = [{"hd": 0, "name": 1, "rest": 1}, {"hd": 3, "name": 2, "rest": 2, "ctx": 1}, {"hd": 4, "name": 3, "rest": 1}]
+    waits = [["SUCCESS"], ["RUNNING", "SUCCESS"], ["RUNNING", "http:500"], ["http:429", "RUNNING", "ERROR"], ["http:404"],
+             ["RUNNING"] + ["http:408", "conn", "http:429", "http:423", "http:409"]]
+    k = 0
+    for n in range(1, nmax + 1):
+        adds = [{"op": "add", "job": dict(kinds[i % 3]), "kw": None} for i in range(n)]
+        bases = []
+        for vec in itertools.product(["RUNNING", "WAITING", "SUCCESS", "http:404", "http:429"], repeat=n):
+            bases.append(adds + [
+                {"op": "launch", "rerun": False, "replace": False, "seq": False, "outs": [{"accept": 0}] * n, "sts": []},
+                {"op": "progress", "sts": list(vec)},
+                {"op": "list", "kind": "active", "sts": ["RUNNING"] * n},
+                {"op": "launch", "rerun": True, "replace": True, "seq": False, "outs": [{"accept": 0}] * n,
+                 "sts": ["ERROR", "http:401"] + ["ERROR"] * n}])
+        for vec in itertools.product(range(len(waits)), repeat=n):
+            sts = [a for i in vec for a in waits[i]]
+            bases.append(adds + [
+                {"op": "launch", "rerun": False, "replace": False, "seq": True, "outs": [{"accept": 0}] * n, "sts": sts},
+                {"op": "progress", "sts": ["SUSPENDED"] * n},
+                {"op": "launch", "rerun": False, "replace": False, "seq": True, "outs": [{"accept": 1}] * n,
+                 "sts": ["CANCELED"] * n},
+                {"op": "launch", "rerun": True, "replace": False, "seq": True, "outs": [{"accept": 0}] * (2 * n),
+                 "sts": ["RUNNING"] * n + ["RUNNING", "http:503"]}])
+        for base in bases:
+            for pos in range(n, len(base) + 1):
+                ops = base[:pos] + ([{"op": "reopen"}] if pos < len(base) else []) + base[pos:]
+                h = {"dir": True, "ops": copy.deepcopy(ops)}
+                k += 1
+                if FIXED_NAMES[k % len(FIXED_NAMES)] != GROUP:
+                    h["name"] = FIXED_NAMES[k % len(FIXED_NAMES)]
+                yield h
+
+
 # ------------------------------------------------------------------------------------------------
 def history_signature(hist, real):
     return tuple((op["op"], op.get("rerun"), op.get("seq"), op.get("replace"), s["res"], len(s["mem"]))
@@ -1168,6 +1373,11 @@ def nontrivial(hist, real):
             if s["res"] != "ok" or reopen_after_add:
                 return True
     return False
+
+
+def prev_disk_of(real, step):
+    i = next(i for i, s in enumerate(real["steps"]) if s is step)
+    return real["steps"][i - 1]["disk"] if i else real["init"]["disk"]
 
 
 def account(chk, hist, real):
@@ -1206,6 +1416,45 @@ def account(chk, hist, real):
             elif op["op"] == "launch" and not op["rerun"] and s["disk"] != prev_disk:
                 chk.branch("run-after-reopen-with-failed")
         prev_disk = s["disk"]
+    # shapes added after seeded changes C19-5 / C19-6 were missed
+    prev_mem = real["init"]["mem"]
+    for op, s in zip(hist["ops"], real["steps"]):
+        f = s.get("faults") or {"raiser": None, "ignored": 0, "wait": False}
+        if f["ignored"]:
+            chk.branch("status-fault-swallowed")
+            chk.count("status_fault", "swallowed")
+        if f["raiser"] is not None:
+            where = "wait" if f["wait"] else ("rerun-refresh" if op["op"] == "launch" else op["op"])
+            chk.count("status_fault", f"raises-in-{where}")
+            chk.branch("status-fault-raises-in-wait" if f["wait"] else "status-fault-raises-in-refresh")
+            if f["raiser"] in SOFT_FAULTS:
+                chk.branch("status-fault-fifth-in-a-row-raises")
+            before = {m["id"]: m["st"] for m in prev_mem if m["id"] is not None}
+            if any(m["id"] in before and before[m["id"]] != m["st"] for m in s["mem"]) or \
+                    (f["wait"] and any(m["id"] is not None and m["id"] not in before and m["st"] != "WAITING" for m in s["mem"])):
+                # an earlier request of the same operation changed a status, a later one raised
+                chk.branch("status-change-then-fault-in-wait" if f["wait"] else "status-change-then-fault-in-refresh")
+        if s["res"] not in ("dead", "crashed"):
+            prev_mem = s["mem"]
+    hd_meta = {v: json.loads(k) for k, v in real.get("hd_table", {}).items()}
+    shared = False
+    for op, s in zip(hist["ops"], real["steps"]):
+        metas = [hd_meta.get(e["hd"]) for e in (s["disk"] or [])]
+        sites = {}
+        for m in metas:
+            if m is not None:
+                sites.setdefault((m["platform"], m["url"]), set()).add(json.dumps(m, sort_keys=True))
+        if not shared and any(len(v) > 1 for v in sites.values()):
+            shared = True
+        if shared and (op["op"] == "reopen" or s["res"] == "killed"):
+            chk.branch("reopen-with-same-platform-other-credentials")
+            shared = "reopened"
+        elif shared == "reopened" and op["op"] == "launch" and s["res"] == "ok" and s["disk"] != prev_disk_of(real, s):
+            chk.branch("launch-after-reopen-with-same-platform-other-credentials")
+    if hist.get("twin") is not None and any(
+            m is not None and (m["platform"], m["url"]) == HANDLERS[TWIN_HD][:2]
+            for s in real["steps"] for m in [hd_meta.get(e["hd"]) for e in (s["disk"] or [])]):
+        chk.branch("twin-shares-platform-with-group")
     seen_add = False
     for op, s in zip(hist["ops"], real["steps"]):
         k = op["op"]
@@ -1442,7 +1691,9 @@ def run(chk: core.Check):
                 "delta parameters, jobs sent outside the group, duplicates, Sampler-made jobs; run/rerun parallel|sequential "
                 "with replace|append; progress; list_*), each under its own group name (plain / characters refused by some "
                 "platforms / punctuation / non-ASCII) and in part next to a bystander group with a close name, against a scripted server (accept with fresh id / refuse at every "
-                "loop position / status answers / script exhausted = process killed at that call); distinct = distinct "
+                "loop position / status answers / status requests that fail: unrecoverable HTTP status, recoverable fault, five "
+                "recoverable faults in a row / script exhausted = process killed at that call), jobs of one group (and of the "
+                "bystander group) sharing platform name and URL but not token or proxies; distinct = distinct "
                 "sequences of (operation, mode, result, group size); non-trivial = a launch refused or killed part-way, or "
                 "a re-open between an add and a launch; plus scripts of file-primitive calls (write/read/has/delete/open) "
                 "over 2-4 close file names in three addressing styles")
@@ -1450,8 +1701,12 @@ def run(chk: core.Check):
         "data directory readable and writable (a private temporary directory; the user's real persistent-data "
         "directory is never touched: XDG_DATA_HOME is re-pointed before perceval is imported); one JobGroup object per "
         "group name at a time; each RemoteJob object added once; an added job whose status is SUCCESS has an identifier",
-        "the server never issues the same identifier twice; status queries answer or the process dies (transient status "
-        "faults are C17's subject)",
+        "the server never issues the same identifier twice; a status query answers, fails (HTTP status 400/401/403/404/"
+        "408/409/421/423/429/500/503 or a connection error) or the process dies; whether a failed status request is "
+        "swallowed or re-raised is read off the real run and handed to the model, whose theorems cover both outcomes for "
+        "every request (the rule that decides it — status code, five faults in a row — is C17's subject, not checked here)",
+        "a killed process executes nothing after the server call it died in: what the code under test writes while the "
+        "harness's stand-in exception for the kill unwinds (finally / except clauses) is undone before re-opening",
         "crash points are server calls and operation boundaries; a crash between the server's answer and the next file "
         "write, and torn writes inside one PersistentData.write_file call, are outside the model (stated residue)",
         "RemoteJob.STATUS_REFRESH_DELAY is set to -1 so that every status evaluation may observe a new server status "
@@ -1471,7 +1726,14 @@ def run(chk: core.Check):
                              "reopen-with-saved-error", "reopen-with-saved-canceled", "add-after-reopen-with-failed",
                              "rerun-after-reopen-with-failed", "run-after-reopen-with-failed",
                              "name-plain", "name-hostile", "name-non-ascii", "name-other-special", "twin-group",
-                             "twin-is-sanitised-name", "fs-script", "fs-several-names", "fs-name-hostile"]
+                             "twin-is-sanitised-name", "fs-script", "fs-several-names", "fs-name-hostile",
+                             # shapes added after seeded changes C19-5 / C19-6 were missed
+                             "witness-poll", "status-fault-swallowed", "status-fault-raises-in-refresh",
+                             "status-fault-raises-in-wait", "status-fault-fifth-in-a-row-raises",
+                             "status-change-then-fault-in-refresh", "status-change-then-fault-in-wait",
+                             "reopen-with-same-platform-other-credentials",
+                             "launch-after-reopen-with-same-platform-other-credentials",
+                             "twin-shares-platform-with-group", "exhaustive-status-faults"]
     setup_perceval()
     chk.lean = core.LeanDriver("C19")
     root = tempfile.mkdtemp(prefix="run-", dir=_ROOT)
@@ -1507,6 +1769,19 @@ def run(chk: core.Check):
         if batch:
             handle_batch(chk, root, batch, variant)
         chk.branch("exhaustive-small-groups", n_exh)
+        n_flt = 0
+        batch = []
+        for hist in exhaustive_fault_histories(nmax):
+            batch.append(hist)
+            n_flt += 1
+            if len(batch) == 200:
+                handle_batch(chk, root, batch, variant)
+                batch = []
+        if batch:
+            handle_batch(chk, root, batch, variant)
+        chk.branch("exhaustive-status-faults", n_flt)
+        chk.extra["exhaustive_status_fault_histories"] = n_flt
+        chk.extra["exhaustive_status_fault_rule"] = exhaustive_fault_histories.__doc__
         chk.extra["exhaustive_histories"] = n_exh
         chk.extra["exhaustive_rule"] = (f"all groups of 1..{nmax} jobs x all accept/refuse vectors x parallel|sequential x "
                                         "3 status patterns x rerun replace|append x accept/refuse vectors of the rerun x "
